@@ -108,12 +108,22 @@ pub fn spec(id: &str) -> Option<Spec> {
             real: vec!["virtio_drivers::transport::mmio::MmioTransport (all Transport methods, new, Drop)", "virtio_drivers::transport::SomeTransport (Mmio variant)", "safe-mmio field!/read/write paths (through the custom-mmio seam)"],
             stubbed: vec!["device: register-level virtio-mmio reference device (sim/src/mmio.rs)", "no virtqueue traffic in this scenario"],
         },
+        "C14" => Spec {
+            id: "C14",
+            level: "exploration",
+            rule: "seeded histories on VirtIOBlk (blocking read/write/flush/device_id with nothing outstanding; non-blocking reads/writes with several outstanding, completed in the order the device chose) over model / MMIO legacy+modern / PCI transports, sectors over the full u64 range, features drawn per run; honest and error-status batches separate; non-trivial = at least two non-blocking requests outstanding together",
+            batches: vec![b("honest", scen::c14::honest, 6000, 150_000), b("faulty", scen::c14::faulty, 4000, 100_000)],
+            extras: vec![],
+            assumptions: vec!["blocking calls are only issued with nothing else outstanding (documented precondition of add_notify_wait_pop)"],
+            real: vec!["virtio_drivers::device::blk::VirtIOBlk", "VirtQueue, Transport::begin_init/finish_init/read_consistent", "MmioTransport / PciTransport (when drawn)"],
+            stubbed: vec!["device: reference block device (sim/src/devices/blk.rs) on the reference virtqueue core", "platform: SimHal"],
+        },
         _ => return None,
     };
     Some(s)
 }
 
-pub const ALL: &[&str] = &["C01", "C02", "C03", "C04", "C05", "C06", "C10"];
+pub const ALL: &[&str] = &["C01", "C02", "C03", "C04", "C05", "C06", "C10", "C14"];
 
 pub fn find_batch(prop: &str, batch: &str) -> Option<fn()> {
     spec(prop)?.batches.iter().find(|b| b.name == batch).map(|b| b.f)
